@@ -24,7 +24,8 @@ SIGS_V1 = {
     "state_iterator_delete": ([I64], I32), "state_iterator_key_size": ([I64], I32), "state_iterator_key_read": ([I64, I32, I32, I32], I32),
     "state_entry_read": ([I64, I32, I32, I32], I32), "state_entry_write": ([I64, I32, I32, I32], I32), "state_entry_size": ([I64], I32),
     "state_entry_resize": ([I64, I32], I32), "hash_sha2_256": ([I32, I32, I32], None), "hash_sha3_256": ([I32, I32, I32], None),
-    "hash_keccak_256": ([I32, I32, I32], None),
+    "hash_keccak_256": ([I32, I32, I32], None), "verify_ed25519_signature": ([I32, I32, I32, I32], I32),
+    "verify_ecdsa_secp256k1_signature": ([I32, I32, I32], I32),
 }
 SIGS_V0 = {
     "accept": ([], I32), "simple_transfer": ([I32, I64], I32), "send": ([I64, I64, I32, I32, I64, I32, I32], I32),
@@ -38,6 +39,7 @@ RES = 32768         # result slots, 8 bytes each: above every window the scripts
 SCRATCH = 2048      # destination of reads
 DATA = 256          # keys and sources live here
 GARBAGE = 0x7FFFFFF0_7FFFFFF0
+CALL_AT = 4096      # payload of invoke(call)
 
 
 def i32c(n):
@@ -48,12 +50,12 @@ def i64c(n):
     return b"\x42" + sleb(n if n < 2 ** 63 else n - 2 ** 64)
 
 
-def build_contract(calls, sigs, data=b"", final_output=True, v0=False):
+def build_contract(calls, sigs, data=b"", final_output=True, v0=False, data_at=None):
     """calls: list of (fname, [arg]) with arg = ("i32", n) | ("i64", n) | ("slot", k) (the i64 result of call k);
     every result is stored (as i64) in slot i; finally the slots are written to the return value (v1) or logged (v0)."""
     used = []
     for f, _ in calls:
-        if f not in used:
+        if f not in used and f != "memory.grow":
             used.append(f)
     fin = "write_output" if "write_output" in sigs else "log_event"
     if final_output and fin not in used:
@@ -73,6 +75,9 @@ def build_contract(calls, sigs, data=b"", final_output=True, v0=False):
         imports.append(name("concordium") + name(f) + b"\x00" + uleb(tidx(ps, r)))
     body = bytearray()
     for i, (f, args) in enumerate(calls):
+        if f == "memory.grow":
+            body += i32c(RES + 8 * i) + i32c(args[0][1] & 0xFFFFFFFF) + b"\x40\x00" + b"\xac" + b"\x37\x03\x00"
+            continue
         ps, r = sigs[f]
         body += i32c(RES + 8 * i)
         for (k, val), pt in zip(args, ps):
@@ -109,7 +114,7 @@ def build_contract(calls, sigs, data=b"", final_output=True, v0=False):
     out += section(7, vec([name("contract.entry") + b"\x00" + uleb(len(used))]))
     out += section(10, vec([uleb(len(code)) + code]))
     if data:
-        out += section(11, vec([b"\x00" + i32c(DATA) + b"\x0b" + uleb(len(data)) + data]))
+        out += section(11, vec([b"\x00" + i32c(DATA if data_at is None else data_at) + b"\x0b" + uleb(len(data)) + data]))
     return out
 
 
@@ -147,7 +152,8 @@ def compile_v1_script(s):
             if trunc:
                 payload = payload[:-3]
             # the payload is placed high in memory by a data segment of its own (see build below)
-            calls.append(("invoke", [("i32", 1), ("i32", DATA), ("i32", len(payload))]))
+            # the payload lives above every window the script may have written to before (and may cover the result slots, which no one reads after an interrupt)
+            calls.append(("invoke", [("i32", 1), ("i32", CALL_AT), ("i32", len(payload))]))
             data = bytearray(payload)
         else:
             calls.append((f, [("i32", a) for a in args]))
@@ -182,6 +188,9 @@ def check_v1_script(ctx, s, res, exp, calls):
             if e["r"][0] not in ("trap", "trap_or_ooe") and trace[k][1] < e["min_energy"]:
                 return "%s%s charged %d, scheduled at least %d" % (fn, e.get("args"), trace[k][1], e["min_energy"])
             k += 1
+    grown = sum(100 * (e["args"][0] & 0xFFFFFFFF) for e in exp if e["f"] == "memory.grow")
+    if grown and res["outcome"] in ("success", "trap", "interrupt") and res.get("memory_alloc", 0) < grown:
+        return "memory.grow requests charged %d, scheduled %d (100 per requested page)" % (res.get("memory_alloc", 0), grown)
     if res["outcome"] != "success":
         return None
     slots = decode_slots(res["rv"], len(exp))
@@ -192,6 +201,8 @@ def check_v1_script(ctx, s, res, exp, calls):
             return "call %d %s%s returned %s, expected %s" % (i, e["f"], e.get("args"), got, r[1])
         if r[0] == "ctx" and got != ctxvals[e["f"]]:
             return "call %d %s returned %s, expected %s" % (i, e["f"], got, ctxvals[e["f"]])
+        if r[0] == "any01" and got not in (0, 1):
+            return "call %d %s%s returned %s, expected 0 or 1" % (i, e["f"], e.get("args"), got)
         if r[0] == "i64none" and got != -1:
             return "call %d %s returned %s, expected none" % (i, e["f"], got)
         if r[0] == "i64some" and (got is None or got in (-1, u(-1, 64) & ~(1 << 62)) or got < 0):
@@ -419,7 +430,7 @@ def run_scripts(ctx, recs, name):
 
 
 def v1_record(s, calls, data, energy=1 << 50):
-    wasm = build_contract(calls, SIGS_V1, data=data)
+    wasm = build_contract(calls, SIGS_V1, data=data, data_at=CALL_AT if any(o["f"] == "invoke_call" for o in s["ops"]) else None)
     return {"version": 1, "wasm": wasm.hex(), "param": PARAM[:s["pl"]].hex(), "energy": energy, "proto": s["proto"]}
 
 
